@@ -27,12 +27,13 @@ inductive Cls
   | derUpd      -- update-order / writer mutex of a derived object (derived variable, derived set, counter, heaviest/lightest, event)
   | derValue    -- value mutex of a derived object (held while `compute` reads the inputs)
   | derExec     -- execution lock of a user callback on a derived object
-  | inValue     -- value mutex of an input (leaf)
+  | inValue     -- value mutex of an input
+  | leaf        -- internal mutexes of `shrinkingmap`, `ds.Set`, `ds.List`, `SetArithmetic` (nothing is acquired under them)
 deriving Repr, DecidableEq
 
 def Cls.rank : Cls → Nat
   | .setUpd => 0 | .setExec => 1 | .inUpd => 2 | .inExec => 3 | .sorted => 4 | .evict => 5
-  | .derUpd => 6 | .derValue => 7 | .derExec => 8 | .inValue => 9
+  | .derUpd => 6 | .derValue => 7 | .derExec => 8 | .inValue => 9 | .leaf => 10
 
 structure Lock where
   cls : Cls
